@@ -113,6 +113,23 @@ def gen(tier, rng, shard, nshards):
             Wn = W.gen_invertible(rng, 0, dt, n, False)
             node = {"k": "Gram", "form": S.pick(rng, ["TA", "HA"]), "same": True, "via": S.pick(rng, ["fn", "ctor"]), "arg": X,
                     **({"tail": [Wn]} if rng.random() < 0.7 else {"head": [Wn], "form": "AT"} if False else {"tail": [Wn]})}
+        routine = (not psd) and (not krylov_wish) and (not gram_tail) and rng.random() < 0.2
+        if routine:
+            # the result of another cola routine as the operator, or as a factor / block / transposed part of it (DESIGN 4.25):
+            # lazy inverses (TriangularInv, factorised inverses, structural inverses), Cholesky factors, matrix functions
+            m_ = int(S.pick(rng, [1, 2, 3, 4]))
+            if rng.random() < 0.4:
+                dt = S.pick(rng, ["c16", "c8"])  # (phases: only complex determinants have more than two)
+            r = W.direct_only(W.gen_routine(rng, dt, m_, fns=["inv", "inv", "inv", "inv", "cholL", "pluprod", "svdprod", "pow-1", "sqrt", "exp", "pow2"]))
+            if rng.random() < 0.3:
+                r = W.gen_routine_directed(rng, dt, m_)
+            other = W.gen_invertible(rng, 0, dt, m_, False, plain=True)
+            form = S.pick(rng, ["whole", "whole", "Product", "Product", "Kronecker", "BlockDiag", "Transpose", "Adjoint"])
+            node = {"whole": r, "Product": {"k": "Product", "via": S.pick(rng, ["ctor", "fn"]), "args": [other, r] if rng.random() < 0.5 else [r, other]},
+                    "Kronecker": {"k": "Kronecker", "via": "ctor", "args": [r, W.gen_invertible(rng, 0, dt, int(rng.integers(1, 4)), False, plain=True)]},
+                    "BlockDiag": {"k": "BlockDiag", "via": "ctor", "mult": [int(rng.integers(1, 3)), 1], "args": [r, W.gen_invertible(rng, 0, dt, int(rng.integers(1, 4)), False, plain=True)]},
+                    "Transpose": {"k": "Transpose", "via": S.pick(rng, ["ctor", "fn"]), "arg": r},
+                    "Adjoint": {"k": "Adjoint", "via": S.pick(rng, ["ctor", "fn"]), "arg": r}}[form]
         if psd:
             la = S.pick(rng, ["Lanczos", "Arnoldi"] if krylov_wish else [OMIT, "Auto", "Cholesky", "LU", "Lanczos", "Arnoldi"])
         else:
